@@ -485,7 +485,7 @@ class DyadCarrier(object):
         if other.ndim == 2:
             return self.__matmul__(other)
 
-        val = np.zeros_like(self.u[0])
+        val = np.zeros(max(self.shape[0], 0), dtype=np.result_type(self.dtype, other.dtype))
         for ui, vi in zip(self.u, self.v):
             val += ui * vi.dot(other)
         return val
@@ -494,7 +494,7 @@ class DyadCarrier(object):
         if other.ndim == 2:
             return self.__rmatmul__(other)
 
-        val = np.zeros_like(self.v[0])
+        val = np.zeros(max(self.shape[1], 0), dtype=np.result_type(self.dtype, other.dtype))
         for ui, vi in zip(self.u, self.v):
             val += vi * other.dot(ui)
         return val
